@@ -193,5 +193,6 @@ def nontrivial(case, result):
 
 
 def prebuild(root):
-    """translator: regenerate coq/Generated/Glue.v from /repo/src (proved equal to the model in Proofs/GlueTieC08.v)"""
-    return run_translator(root, "rs2v_glue.py", "C08")
+    """translators: coq/Generated/Glue.v (Proofs/GlueTieC08.v) and coq/Generated/Loops.v (pow / ilog loops, Proofs/LoopsTieC08*.v),
+    each proved equal to the hand-written model"""
+    return run_translator(root, "rs2v_glue.py", "C08") or run_translator(root, "rs2v_loops.py", "C08")
